@@ -383,6 +383,13 @@ class Compiler:
             ins = self.mk("assign", (("local", env["res"]), val), s, env)
             ins.next = k["ret"]
             return ("pc", P.emit(ins))
+        if isinstance(s, (ast.Break, ast.Continue)):
+            key = "break" if isinstance(s, ast.Break) else "continue"
+            if key not in k:
+                raise Unsupported("%s outside a translated loop" % key)
+            ins = self.mk("nop", key, s, env)               # the statement's own line is a traced line
+            ins.next = k[key]
+            return ("pc", P.emit(ins))
         if isinstance(s, ast.Raise):
             ex = s.exc.func if isinstance(s.exc, ast.Call) else s.exc
             name = ex.id if isinstance(ex, ast.Name) else (ex.attr if isinstance(ex, ast.Attribute) else "Exception")
@@ -400,7 +407,7 @@ class Compiler:
                 raise Unsupported("while with a condition spanning several lines")
             ins = self.mk("cjump", self.expr(s.test, env), s, env)
             pc = P.emit(ins)
-            body = self.block(s.body, env, dict(k, next=("loop", pc)))
+            body = self.block(s.body, env, dict(k, next=("loop", pc), **{"break": k["next"], "continue": ("loop", pc)}))
             ins.next, ins.alt = body, k["next"]
             return ("pc", pc)
         if isinstance(s, ast.For):
@@ -416,7 +423,7 @@ class Compiler:
             last.next = k["next"]
             nxt = ("pc", P.emit(last))
             for i in reversed(range(arity)):
-                body = self.block(s.body, env, dict(k, next=nxt))
+                body = self.block(s.body, env, dict(k, next=nxt, **{"break": k["next"], "continue": nxt}))
                 ln = "%s@%d" % (src[1], i)
                 P.locals.setdefault(ln, "value")
                 hd = self.mk("assign", (tgt, ("local", ln)), s, env)
@@ -432,6 +439,9 @@ class Compiler:
                     return None
                 return ("finally", s, env, target, k)
             kb = dict(k, next=through(k["next"]), ret=through(k["ret"]), **{"raise": ("finally-raise", s, env, k)})
+            for key in ("break", "continue"):
+                if key in k:
+                    kb[key] = through(k[key])
             body = self.block(s.body, env, kb)
             ins = self.mk("nop", "try", s, env)           # the `try:` line is a traced line
             ins.next = body
